@@ -252,7 +252,11 @@ func checkC14(c *Ctx) {
 							continue
 						}
 						lt, rt := core.Term(bo.X), core.Term(bo.Y)
-						if (stringsContains(lt, ".Peer") && stringsContains(rt, ".peerID")) || (stringsContains(rt, ".Peer") && stringsContains(lt, ".peerID")) {
+						// subscription.Peer compared with a value read from the writer itself (its own peer id)
+						ownID := func(v ssa.Value) bool {
+							return len(rf.Params) > 0 && !stringsContains(core.Term(v), ".Peer") && containerReaches(v, func(x ssa.Value) bool { return x == ssa.Value(rf.Params[0]) })
+						}
+						if (stringsContains(lt, ".Peer") && ownID(bo.Y)) || (stringsContains(rt, ".Peer") && ownID(bo.X)) {
 							guarded = true
 						}
 					}
